@@ -65,7 +65,7 @@ class Prepared:
             if case.get("sib"):
                 K.add_siblings(t, fmt0, case["sib"])
             if case.get("old") is not None:
-                K.do_write("write_arrays", t.handle(), case["old"], fmt0, overwrite=False)
+                K.do_write("write_arrays", t.setup_handle(), case["old"], fmt0, overwrite=False)
         self.pre_snap = t.snapshot()
         self.pre_order = t.keys_in_order()
         if t.kind == "mem":
@@ -88,6 +88,7 @@ class Prepared:
                     os.makedirs(os.path.dirname(p), exist_ok=True)
                     with open(p, "wb") as fh:
                         fh.write(v)
+        t.ensure_link()
         t.rec.log, t.rec.n, t.rec.fail_at = [], 0, None
 
     def attempt(self, fail_at=None):
@@ -109,6 +110,10 @@ class Prepared:
         with K.quiet(t):
             snap = t.snapshot()
             read = K.canon_read(t.reader()) if snap is not None else {"reject": "absent"}
+            self.link_read = None
+            if t.kind in K.SYMLINK_KINDS:
+                # what the target reads as THROUGH the link (it may have been replaced by a directory)
+                self.link_read = K.canon_read(t.link) if os.path.lexists(t.link) else {"reject": "absent"}
         return snap, read
 
 
@@ -149,10 +154,12 @@ def _run_in(case, tmp):
             g = K.model_graph({**case["new"], "invalid": None}, fmt, case["entry"])
             if inv in ("id-dtype-mismatch", "float-ids"):
                 flags["idsOk"] = False
-            elif inv in ("complex-prop", "complex-eprop") and g is not None:
-                side = "nodeProps" if inv == "complex-prop" else "edgeProps"
+            elif inv in ("complex-prop", "complex-eprop", "vlen-mixed-rank", "vlen-mixed-dtype") and g is not None:
+                side = "edgeProps" if inv == "complex-eprop" else "nodeProps"
                 g[side] = (g[side] or []) + [
                     {"name": "cplx", "metaOk": False, "values": {"m": "-", "c": []}, "missing": None, "data": None}]
+            elif inv == "axis-absent":
+                g = None   # rejected between the last array and the metadata write: not an abort point of the model
         res["g"] = g
         res["flags"] = flags
         # fault-free run, recorded
@@ -160,6 +167,7 @@ def _run_in(case, tmp):
         out0 = P.attempt()
         ops = [list(x) for x in P.t.rec.log]
         snap0, read0 = P.observe()
+        link0 = P.link_read
         res.update(out0=out0, ops=ops, final=K.abstract_state(snap0, P.t.keys_in_order() if kind == "mem" else None),
                    final_read_ok="reject" not in read0, final_geff=K.geff_part(snap0),
                    final_foreign=K.foreign_part(snap0), final_has_keys=snap0 is not None)
@@ -176,8 +184,21 @@ def _run_in(case, tmp):
         res["ref_new_ok"] = ref_new is not None and "reject" not in ref_new
         res["final_is_new"] = (read0 == ref_new) if ref_new is not None else None
         # what the target reads as after the call, whatever made the call fail
-        res["final_verdict"] = ("reject" if "reject" in read0 else "new" if (ref_new is not None and read0 == ref_new)
-                                else "old" if read0 == P.pre_read else "WRONG")
+        def classify(read, link_read=None):
+            def one(rd):
+                return ("reject" if "reject" in rd else "new" if (ref_new is not None and rd == ref_new)
+                        else "old" if rd == P.pre_read else "WRONG")
+            v = one(read)
+            if link_read is not None:
+                # symlinked target: the real directory and the view through the link must both be harmless
+                vl = one(link_read)
+                if vl == "WRONG" or v == "WRONG":
+                    return "WRONG"
+                if vl != v:
+                    return "reject" if "reject" in (v, vl) else vl
+            return v
+
+        res["final_verdict"] = classify(read0, link0)
         # fault at every mutation
         points = []
         if case.get("faults", True):
@@ -186,14 +207,7 @@ def _run_in(case, tmp):
                 out = P.attempt(fail_at=k)
                 executed = [list(x) for x in P.t.rec.log]
                 snap, read = P.observe()
-                if "reject" in read:
-                    verdict = "reject"
-                elif ref_new is not None and read == ref_new:
-                    verdict = "new"
-                elif read == P.pre_read:
-                    verdict = "old"
-                else:
-                    verdict = "WRONG"
+                verdict = classify(read, P.link_read)
                 points.append({"k": k, "out": out, "verdict": verdict,
                                "reject": read.get("reject"),
                                "executed_after": executed[k + 1:],       # mutations that still ran after the failing one
@@ -221,6 +235,23 @@ INVALID = ["len-node", "len-edge", "len-missing", "meta-absent-node", "meta-abse
 # inputs that are written completely and then rejected by validate_structure (=> ValueError AND roll-back)
 VALIDATION_FAILURES = ("len-node", "len-edge", "len-edge3", "len-missing", "len-emissing", "meta-absent-node",
                        "meta-absent-edge", "edge-2d-ids")
+VLEN_INVALID = ["vlen-len+1", "vlen-len-1", "vlen-len0", "vlen-lenN", "vlen-missing-len", "vlen-mixed-rank",
+                "vlen-mixed-dtype", "evlen-len+1", "evlen-len-1", "evlen-lenN", "evlen-missing-len", "axis-absent"]
+
+
+def is_validation_failure(inv) -> bool:
+    """written completely, then rejected by validate_structure (=> ValueError AND roll-back)"""
+    return bool(inv) and (inv in VALIDATION_FAILURES or inv.startswith(("vlen-len", "evlen-len")) or
+                          inv.endswith("vlen-missing-len"))
+
+
+def really_invalid(bad, shape) -> bool:
+    """combinations that are in fact valid inputs are not generated"""
+    if shape == "empty":
+        return bad not in ("vlen-len0", "vlen-mixed-rank", "vlen-mixed-dtype", "axis-absent")
+    return bad != "vlen-lenN"
+
+
 # the same defects on graphs without edges / without nodes (node side and edge side)
 INVALID_SPARSE = ["len-node", "len-edge", "len-edge3", "len-emissing", "meta-absent-node", "meta-absent-edge",
                   "complex-prop", "complex-eprop"]
@@ -316,6 +347,35 @@ def gen_cases(ck):
                     cases.append({"fmt": fmt, "kind": kind, "sib": "group" if kind != "mem" else False, "old": None,
                                   "entry": "write_arrays", "new": {**sparse_graph(shape), "invalid": bad},
                                   "overwrite": False, "validation": True, "stream": "invalid-sparse", "faults": False})
+    # variable-length properties with the wrong number of entries / wrong missing-mask length / inhomogeneous
+    # elements, node side and edge side, and an axis without node property (rejected after all arrays are written)
+    nv = 0
+    for bad in VLEN_INVALID:
+        for shape in ("normal", "edgeless", "empty"):
+            if not really_invalid(bad, shape):
+                continue
+            for fmt in (2, 3):
+                for kind in (("mem",) if ck.quick else ("mem", "path")):
+                    nv += 1
+                    if ck.quick and nv % 2 == 0:
+                        continue
+                    base = tiny(1, small=True) if shape == "normal" else sparse_graph(shape)
+                    cases.append({"fmt": fmt, "kind": kind, "sib": False, "old": None, "entry": "write_arrays",
+                                  "new": {**base, "invalid": bad}, "overwrite": False, "validation": True,
+                                  "stream": "invalid-vlen", "faults": False})
+    # the target is a symbolic link to the geff directory (latest.geff -> real.geff): refused / overwrite /
+    # roll-back / late rejection / faults; the store is classified at the real directory and through the link
+    for fmt in (2, 3):
+        for kind in K.SYMLINK_KINDS:
+            if ck.quick and (kind == "symlink-path") != (fmt == 3):
+                continue
+            o, n_ = tiny(5, small=True), tiny(1, small=True)
+            for new, ow, old, faults in ((n_, False, o, False), (n_, True, o, True), (n_, False, None, False),
+                                         ({**n_, "invalid": "axis-absent"}, True, o, False),
+                                         ({**n_, "invalid": "len-node"}, True, o, False),
+                                         ({**n_, "invalid": "meta-absent-edge"}, False, None, False)):
+                cases.append({"fmt": fmt, "kind": kind, "sib": False, "old": old, "entry": "write_arrays", "new": new,
+                              "overwrite": ow, "validation": True, "stream": "symlink", "faults": faults})
     # corpus
     d = common.VERIF / "harness" / "corpus" / PROP
     corpus = [json.loads(f.read_text()) for f in sorted(d.glob("*.json"))] if d.is_dir() else []
@@ -328,7 +388,7 @@ def model_request(res):
     g = dict(res["g"])
     g.update(res.get("flags", {}))
     inv = c["new"].get("invalid")
-    validation_fails = inv in VALIDATION_FAILURES
+    validation_fails = is_validation_failure(inv)
     g["valid"] = not validation_fails
     return {"op": "trace", "fmt": c["fmt"], "kind": K.model_kind(c["kind"]), "docs": K.docs_for(c["fmt"]),
             "pre": res["pre"], "g": g, "entry": K.model_entry(c["entry"]),
@@ -375,12 +435,15 @@ def run(ck: common.Check):
                "9 kinds incl. var-length, strings, all-fill arrays, missing masks) through all 5 entry points, refused "
                "writes (also on home-relative ~/… targets), 9 kinds of invalid input, roll-back next to 5 kinds of unrelated "
                "content (array / group / nested group / both / root attributes), 8 kinds of invalid node- and edge-side input on "
-               "edgeless, nodes-only and empty graphs; the target is classified after EVERY failed call; every case is run once per store mutation with that mutation "
+               "edgeless, nodes-only and empty graphs, 12 kinds of invalid variable-length input / axis without property, targets that are "
+               "symbolic links to the geff directory; the target is classified after EVERY failed call; every case is run once per store mutation with that mutation "
                "failing (all k, not a sample); a case is non-trivial when the write performs at least one mutation")
     cases = gen_cases(ck)
     results = common.pmap(run_case, cases, chunksize=1)
     drv = ck.driver()
-    good = [r for r in results if "harness_error" not in r and r.get("g") is not None]
+    # (symbolic links are not a store kind of the model: rmtree refuses them)
+    good = [r for r in results if "harness_error" not in r and r.get("g") is not None
+            and r["case"]["kind"] not in K.SYMLINK_KINDS]
     answers = drv.ask([model_request(r) for r in good]) if good else []
     if answers is None:
         ck.broken.append({"what": "driver Drivers/C05.lean", "detail": drv.broken})
@@ -416,6 +479,8 @@ def run(ck: common.Check):
                     ck.fail("C05:refused-write-mutates", f"write onto an existing geff without overwrite gave {r['out0']} "
                             f"after {len(r['ops'])} store mutations", c, {"out": r["out0"], "ops": r["ops"][:5]},
                             "FileExistsError, no mutation")
+            elif c["kind"] in K.SYMLINK_KINDS and r["out0"] != "ok":
+                pass   # a write through a symbolic link may fail (rmtree refuses links); the target was classified above
             elif r["out0"] != "ok" or not r["final_is_new"]:
                 ck.fail("C05:complete-write-not-new", f"fault-free write ended with {r['out0']} and does not read back as the graph written",
                         c, {"out": r["out0"], "reads_as_new": r["final_is_new"]}, "ok, reads as new graph")
@@ -428,8 +493,9 @@ def run(ck: common.Check):
                     ck.fail("C05:invalid-input-leaves-valid-looking-store",
                             f"after the rejected write ({inv}: {r['out0']}) the target is accepted by validate_structure + read_to_memory",
                             c, {"out": r["out0"]}, "rejected")
-                is_validation_failure = inv in VALIDATION_FAILURES
-                if is_validation_failure:
+                # the roll-back claims apply when the call really failed in validation (ValueError)
+                is_vf = is_validation_failure(inv) and r["out0"] == "ValueError"
+                if is_vf:
                     left = sorted(k for k in r["final_geff"])
                     if any(not k.endswith("#geff") for k in left):
                         ck.fail("C05:cleanup-leaves-nodes-edges", f"after the validation failure ({inv}) keys remain: {left[:6]}",
@@ -558,11 +624,12 @@ def replay(rp):
         if c.get("old") is not None and not c.get("overwrite"):
             bad = bad or r["out0"] != "FileExistsError" or bool(r["ops"])
         else:
-            bad = bad or r["out0"] != "ok" or not r["final_is_new"]
+            bad = bad or ((r["out0"] != "ok" or not r["final_is_new"]) and not (
+                c["kind"] in K.SYMLINK_KINDS and r["out0"] != "ok"))
     else:
         left = sorted(r["final_geff"])
         bad = bad or r["out0"] == "ok" or (r["final_read_ok"] and not (c.get("old") is not None and not r["ops"]))
-        if inv in VALIDATION_FAILURES:
+        if is_validation_failure(inv) and r["out0"] == "ValueError":
             bad = bad or bool(left) or not K.foreign_preserved(r["pre_foreign"], r["final_foreign"], c["kind"])
     print("REPLAY: property FAILS on this input" if bad else "REPLAY: property holds on this input")
     return 1 if bad else 0
